@@ -350,6 +350,11 @@ def replay(case):
         viols, _ = evaluate(case)
     except L.BuildError as err:
         raise HarnessError(f"replay case cannot be built: {err}") from err
+    if "viol" in case:
+        # a stored failure is about its own root-cause bucket; other
+        # violations of the same history have their own replay files
+        viols = [(w, v) for w, v in viols
+                 if bucket_of(v) == bucket_of(case["viol"])]
     if viols:
         return "; ".join(describe(v, w) for w, v in viols)
     return None
